@@ -9,14 +9,15 @@ for sid in ids:
     meta=json.load(open(f'{d}/meta.json'))
     prop=sid.split('-')[0]
     props=[prop]+extra.get(sid,[])
-    env=dict(os.environ)
-    if meta.get('no_std_only'): env['NOSTD']='1'
+    env=dict(os.environ); env['SERIES']='1'
     r=subprocess.run(['/verif/tools/try_mutant.sh',f'{d}/patch.diff']+props,capture_output=True,text=True,env=env)
     lines=[l for l in r.stdout.strip().split('\n') if l.startswith(('DETECTED','missed','ERROR','BUILD'))]
-    meta['checked']={'command':'tools/try_mutant.sh patch.diff '+' '.join(props)+' (git -C /repo apply; ./check <P> quick budget; git -C /repo checkout -- .)','results':lines}
+    meta['checked']={'command':'tools/try_mutant.sh patch.diff '+' '.join(props)+' (git -C /repo apply; ./check <P> quick; git -C /repo checkout -- .)','results':lines}
     meta['detected']=any(l.startswith('DETECTED '+prop) for l in lines)
     meta['detected_by']=[l.split()[1] for l in lines if l.startswith('DETECTED')]
     json.dump(meta,open(f'{d}/meta.json','w'),indent=1)
     print('==',sid, 'DETECTED' if meta['detected'] else 'MISSED', '|', meta.get('summary','')[:110])
     for l in lines: print('   ',l[:300])
     sys.stdout.flush()
+
+subprocess.run(['/verif/check','--build'],capture_output=True)
